@@ -11,6 +11,7 @@ import (
 
 	"github.com/inbucket/inbucket/v3/pkg/message"
 	"github.com/inbucket/inbucket/v3/pkg/storage"
+	"github.com/inbucket/inbucket/v3/pkg/verifhook"
 	"github.com/rs/zerolog/log"
 )
 
@@ -93,6 +94,7 @@ func (mb *mbox) removeMessage(id string) error {
 	}
 	// There are still messages in the index
 	log.Debug().Str("module", "storage").Str("path", msg.rawPath()).Msg("Deleting file")
+	verifhook.Point("file.fs", "remove.raw", msg.rawPath())
 	return os.Remove(msg.rawPath())
 }
 
@@ -162,6 +164,7 @@ func (mb *mbox) writeIndex() error {
 		// Write the new index to a temporary file and rename it into place, so that a crash at
 		// any point leaves either the old or the new index, never a truncated one.
 		tmpPath := mb.indexPath + ".tmp"
+		verifhook.Point("file.fs", "index.create-tmp", tmpPath)
 		file, err := os.Create(tmpPath)
 		if err != nil {
 			return err
@@ -192,10 +195,12 @@ func (mb *mbox) writeIndex() error {
 			_ = os.Remove(tmpPath)
 			return err
 		}
+		verifhook.Point("file.fs", "index.before-rename", tmpPath)
 		if err := os.Rename(tmpPath, mb.indexPath); err != nil {
 			_ = os.Remove(tmpPath)
 			return err
 		}
+		verifhook.Point("file.fs", "index.renamed", mb.indexPath)
 	} else {
 		// No messages, delete index+maildir
 		log.Debug().Str("module", "storage").Str("path", mb.path).Msg("Removing mailbox")
@@ -207,6 +212,7 @@ func (mb *mbox) writeIndex() error {
 // createDir checks for the presence of the path for this mailbox, creates it if needed
 func (mb *mbox) createDir() error {
 	if _, err := os.Stat(mb.path); err != nil {
+		verifhook.Point("file.fs", "mkdir", mb.path)
 		if err := os.MkdirAll(mb.path, 0770); err != nil {
 			log.Error().Str("module", "storage").Str("path", mb.path).Err(err).
 				Msg("Failed to create directory")
@@ -220,14 +226,17 @@ func (mb *mbox) createDir() error {
 func (mb *mbox) removeDir() error {
 	// Remove the index first: without it the mailbox reads as empty, so an interruption while
 	// the message files are being deleted can never leave an index that lists missing messages.
+	verifhook.Point("file.fs", "rmdir.index", mb.indexPath)
 	if err := os.Remove(mb.indexPath); err != nil && !os.IsNotExist(err) {
 		return err
 	}
+	verifhook.Point("file.fs", "rmdir.removeall", mb.path)
 	// remove mailbox dir, including any remaining files
 	if err := os.RemoveAll(mb.path); err != nil {
 		return err
 	}
 	// remove parents if empty
+	verifhook.Point("file.fs", "rmdir.parents", mb.path)
 	dir := filepath.Dir(mb.path)
 	if removeDirIfEmpty(dir) {
 		removeDirIfEmpty(filepath.Dir(dir))
